@@ -170,9 +170,32 @@ type AlIn struct {
 	A int `json:"a"`
 }
 type Al struct {
-	First AlIn  `json:"first"`
-	PF    *AlIn `json:"pf,omitempty"`
-	Next  *Al   `json:"next,omitempty"`
+	First AlIn    `json:"first"`
+	PF    *AlIn   `json:"pf,omitempty"`
+	F     float64 `json:"f,omitempty"`
+	Next  *Al     `json:"next,omitempty"`
+}
+
+// repairValue replaces the NaN leaves the mutator put into an Al chain (in place: the object
+// keeps its addresses) and reports whether it changed anything.
+func repairValue(v any) bool {
+	var a *Al
+	switch x := v.(type) {
+	case *Al:
+		a = x
+	case Al:
+		a = x.Next // the copy shares every node below the first
+	default:
+		return false
+	}
+	changed := false
+	for n := 0; a != nil && n < 4000; a, n = a.Next, n+1 {
+		if a.F != a.F {
+			a.F = 1
+			changed = true
+		}
+	}
+	return changed
 }
 
 var alType = reflect.TypeOf(Al{})
@@ -598,10 +621,15 @@ func mutateValue(v reflect.Value, r *gen.R, depth int) {
 	case reflect.Struct:
 		if v.Type() == alType && v.CanAddr() {
 			// along a (possibly >1000 levels deep) chain: pointers to the first field of enclosing structs
-			for a, n := v.Addr().Interface().(*Al), 0; a != nil && n < 3000; a, n = a.Next, n+1 {
+			last := v.Addr().Interface().(*Al)
+			for a, n := last, 0; a != nil && n < 3000; a, n = a.Next, n+1 {
 				if r.P(300) {
 					a.PF = &a.First
 				}
+				last = a
+			}
+			if r.P(400) && last != v.Addr().Interface().(*Al) {
+				last.F = nanValue // an unencodable leaf at the bottom of the chain
 			}
 			return
 		}
